@@ -165,7 +165,7 @@ def c16():
         "same tree and print again to the same text; the Lean printer model must produce byte-identical text "
         "(renderPretty) and the same token stream; non-trivial = distinct (program, width, indent)"
     )
-    chk.assumptions = ["in-place mode only redirects the output stream (app/src/cli/fmt.rs); covered by the same print function"]
+    chk.assumptions = ["terminal width detection (no --width) is outside the check: every CLI run passes --width"]
     ready, proofs_ok, plog = base(chk, "C16", "hand-written Lean models of lexer, parser and printer (incl. the layout algorithm of the pretty crate, proved to be one of the admissible layout choices), tied by byte equality of the formatted text and tree equality of the parse on every input of the run")
     found = False
     if ready:
@@ -230,6 +230,63 @@ def c16():
             if mr[0] != "OK " + st["S0"][1]:
                 chk.corr["disagreements"] += 1
                 chk.model_disagreements.append({"file": path, "pass": "parse", "model": mr[0][:200]})
+        # --- the command-line formatter's FILE modes (`--inplace`, `-o FILE`), as histories: whatever the
+        #     destination held before, afterwards it holds exactly the printed text (spec: write = replace)
+        okc, cerr = common.build_cli()
+        chk.obligation("build:scc-cli", "build", okc, cerr[-300:])
+        if okc:
+            import shutil
+
+            cd = os.path.join(WORK, "c16_cli")
+            shutil.rmtree(cd, ignore_errors=True)
+            os.makedirs(cd)
+            sample = [p_ for p_ in progs if "/corpus/parse/" in p_][:: (6 if quick else 1)] + pipeline.repo_programs()[:: (5 if quick else 1)]
+            n_hist = 0
+            for path in sample:
+                src = open(path).read()
+                if h.ask("stages %s 0" % path) is None:
+                    h = common.harness()
+                    continue
+                for (w, i) in ([(100, 4), (20, 2)] if quick else [(100, 4), (20, 2), (1, 0), (200, 8), (40, 3)]):
+                    rep = h.ask("fmt %s %d %d" % (path, w, i))
+                    if not rep or not rep[0].startswith("FMT OK "):
+                        continue
+                    text, verdict = split_quoted(rep[0][len("FMT OK "):])
+                    if not verdict.startswith("SAME"):
+                        continue  # reported above (known finding or violation)
+                    st0, out0, err0 = common.run_cli(["fmt", "--width", str(w), "--indent", str(i), path])
+                    expected = out0.decode(errors="replace")
+                    chk.corr["compared"] += 1
+                    if st0 != 0 or expected.strip() != text.strip():
+                        chk.corr["disagreements"] += 1
+                        chk.model_disagreements.append({"file": path, "pass": "cli-stdout-vs-library", "status": st0, "stderr": err0[:200]})
+                        continue
+                    # history 1: in place over a LONGER previous content (banner comment + trailing comments)
+                    f1 = os.path.join(cd, "inplace.sc")
+                    open(f1, "w").write("// " + "banner " * 40 + "\n" + src + "\n// trailing comment one\n// trailing comment two " + "x" * 300 + "\n")
+                    s1, _, e1 = common.run_cli(["fmt", "--width", str(w), "--indent", str(i), "--inplace", f1])
+                    got1 = open(f1, errors="replace").read()
+                    # history 2: -o onto a file that holds an earlier, longer rendering (narrow width), then again (same)
+                    f2 = os.path.join(cd, "out.sc")
+                    if os.path.exists(f2):
+                        os.remove(f2)
+                    common.run_cli(["fmt", "--width", "1", "--indent", "8", "-o", f2, path])
+                    s2, _, e2 = common.run_cli(["fmt", "--width", str(w), "--indent", str(i), "-o", f2, path])
+                    got2 = open(f2, errors="replace").read() if os.path.exists(f2) else "<no file>"
+                    # history 3: formatting the formatted file in place again changes nothing
+                    s3, _, e3 = common.run_cli(["fmt", "--width", str(w), "--indent", str(i), "--inplace", f1])
+                    got3 = open(f1, errors="replace").read()
+                    n_hist += 3
+                    chk.count((path, w, i, "cli"))
+                    for name, stx, got, err in (("inplace-over-longer-file", s1, got1, e1), ("output-over-earlier-rendering", s2, got2, e2), ("inplace-twice", s3, got3, e3)):
+                        if stx != 0 or got != expected:
+                            found = True
+                            chk.impl_oracle_failures.append({"file": path, "width": w, "indent": i, "history": name, "status": stx})
+                            chk.violation("fmt:cli:" + name, "scc fmt (%s) on %s width %d indent %d leaves a file that differs from the printed text (status %s)" % (name, os.path.basename(path), w, i, stx),
+                                          "fmtcli_%s_%s.txt" % (name, os.path.basename(path)),
+                                          "file=%s\nwidth=%d indent=%d\nhistory=%s\nstatus=%s\nstderr=%s\n--- file content afterwards:\n%s\n--- printed text (scc fmt to stdout):\n%s\n" % (path, w, i, name, stx, err[:500], got[:6000], expected[:6000]))
+                            break
+            chk.notes["cli_histories"] = n_hist
         chk.sample({"widths": widths[:8], "indents": indents, "programs": len(progs)})
         h.close()
         m.close()
@@ -305,6 +362,7 @@ def c18():
 
         inputs += _sc.wide_types(chk)
         outcome_hist = {}
+        cli_expect = {}
         for path in inputs:
             rep = h.ask("stages %s 6" % path)
             if rep is None:
@@ -317,6 +375,11 @@ def c18():
             chk.count(path)
             s0 = st.get("S0", ("MISSING", ""))
             outcome_hist[s0[0]] = outcome_hist.get(s0[0], 0) + 1
+            s1_ = st.get("S1", ("MISSING", ""))
+            if s0[0] == "DIAG" or (s0[0] == "OK" and s1_[0] == "DIAG"):
+                cli_expect[path] = "DIAG-parse" if s0[0] == "DIAG" else "DIAG-check"
+            elif s0[0] == "OK" and s1_[0] == "OK":
+                cli_expect[path] = "OK"
             valid_main = False
             if "S1" in st and st["S1"][0] == "OK":
                 import stagecheck
@@ -346,6 +409,41 @@ def c18():
             if not same:
                 chk.corr["disagreements"] += 1
                 chk.model_disagreements.append({"file": path, "impl": s0[0] + " " + s0[1][:60], "model": mod[:80]})
+        # --- the REAL command-line binary on the same inputs: "a program or a REPORTED error" — the report
+        #     itself (diagnostic rendering, lang/fun/src/parser/result.rs, driver/src/result.rs, app/src/cli)
+        #     must not panic either; exit status 0 (accepted) / 1 (diagnostic), never 101 / a signal
+        okc, cerr = common.build_cli()
+        chk.obligation("build:scc-cli", "build", okc, cerr[-300:])
+        if okc:
+            by_class = {}
+            for path in inputs:
+                oc = cli_expect.get(path)
+                if oc is not None:
+                    by_class.setdefault(oc, []).append(path)
+            cli_n = 0
+            cli_hist = {}
+            for oc, paths in sorted(by_class.items()):
+                nonascii = [p_ for p_ in paths if any(ord(ch) > 127 for ch in open(p_, errors="replace").read())]
+                rest = [p_ for p_ in paths if p_ not in set(nonascii)]
+                pick = nonascii[: (60 if quick else 3000)] + rest[:: max(1, len(rest) // (80 if quick else 4000))]
+                for path in pick:
+                    stc, outc, errc = common.run_cli(["check", path])
+                    cli_n += 1
+                    chk.count((path, "cli"))
+                    cli_hist[str(stc)] = cli_hist.get(str(stc), 0) + 1
+                    expect = 0 if oc == "OK" else 1
+                    if stc != expect or "panicked" in errc:
+                        bad_kind = "panic" if (stc == 101 or "panicked" in errc or str(stc).startswith("signal")) else "status"
+                        if bad_kind == "status":
+                            chk.corr["disagreements"] += 1
+                            chk.model_disagreements.append({"file": path, "pass": "cli-exit-status", "expected": expect, "got": stc, "stderr": errc[:200]})
+                            continue
+                        found = True
+                        chk.impl_oracle_failures.append({"file": path, "cli_status": stc, "stderr": errc[:200]})
+                        chk.violation("C18:cli-panic", "`scc check` on %s: exit status %s (%s) instead of %s" % (os.path.basename(path), stc, errc.strip().split("\n")[0][:120], "a reported diagnostic" if expect else "success"),
+                                      "cli_%s.txt" % os.path.basename(path), "file=%s\nexit status=%s\nexpected=%d\nstderr:\n%s\ninput:\n%s\n" % (path, stc, expect, errc[:3000], open(path, errors="replace").read()[:5000]))
+            chk.notes["cli_runs"] = cli_n
+            chk.notes["cli_exit_status_histogram"] = cli_hist
         chk.notes["parse_outcomes"] = outcome_hist
         chk.sample({"inputs": len(inputs), "parse_outcomes": outcome_hist})
         h.close()
